@@ -5,7 +5,7 @@ import itertools
 import re as _re
 from fractions import Fraction
 
-from .. import coqrun, py2gallina as pg
+from .. import coqrun, py2gallina as pg, symex as X
 from ..core import Corr, Untranslatable, Violation
 
 ID = "C02"
@@ -26,124 +26,176 @@ ARGS = "R rO rI radd rmul rsub rdiv ropp is0"
 OPS = {ast.Add: "radd", ast.Sub: "rsub", ast.Mult: "rmul", ast.Div: "rdiv"}
 
 
-class RingT:
-    def __init__(self, env, path, calls=None):
-        self.env, self.path, self.calls = env, path, calls or {}
+OPSV = {"+": "radd", "-": "rsub", "*": "rmul", "/": "rdiv"}
+S = lambda n: ("sym", n)
+IDX = lambda t, i: ("sub", t, ("tuple", (X.const(Ellipsis), X.const(i))))
 
-    def t(self, node):
-        key = ast.unparse(node)
-        if key in self.env:
-            return self.env[key]
-        if isinstance(node, ast.BinOp):
-            for k, nm in OPS.items():
-                if isinstance(node.op, k):
-                    return "(%s %s %s)" % (nm, self.t(node.left), self.t(node.right))
-            if isinstance(node.op, ast.Pow) and isinstance(node.right, ast.Constant) and node.right.value == 2:
-                a = self.t(node.left)
-                return "(rmul %s %s)" % (a, a)
-        if isinstance(node, ast.UnaryOp) and isinstance(node.op, ast.USub):
-            return "(ropp %s)" % self.t(node.operand)
-        if isinstance(node, ast.Constant) and isinstance(node.value, (int, float)) and not isinstance(node.value, bool):
-            v = Fraction(node.value)
-            if v == 0:
+
+class RingV:
+    """Emits value trees (vlib/symex.py) as terms over the abstract field."""
+
+    def __init__(self, leaves, path, calls=None):
+        self.leaves, self.path, self.calls = leaves, path, calls or {}
+
+    def t(self, v):
+        if v in self.leaves:
+            return self.leaves[v]
+        if v[0] == "bin" and v[1] in OPSV:
+            return "(%s %s %s)" % (OPSV[v[1]], self.t(v[2]), self.t(v[3]))
+        if v[0] == "bin" and v[1] == "**" and v[3] == X.const(2):
+            a = self.t(v[2])
+            return "(rmul %s %s)" % (a, a)
+        if v[0] == "un" and v[1] == "-":
+            return "(ropp %s)" % self.t(v[2])
+        if v[0] == "const" and isinstance(v[1], (int, float)) and not isinstance(v[1], bool):
+            q = Fraction(v[1])
+            if q == 0:
                 return "rO"
-            if v == 1:
+            if q == 1:
                 return "rI"
-            if v == -1:
+            if q == -1:
                 return "(ropp rI)"
-        if isinstance(node, ast.Call):
-            fn = ast.unparse(node.func)
-            if fn in self.calls:
-                return self.calls[fn](node, self)
-        raise Untranslatable("complex: expression outside subset: %s" % key[:70], getattr(node, "lineno", None), self.path)
+        if v[0] == "call" and v[1] in self.calls:
+            return self.calls[v[1]](v, self)
+        raise Untranslatable("complex: expression outside subset: %s" % X.show(v)[:90], None, self.path)
 
 
-def _assign(body, name):
-    for s in body:
-        if isinstance(s, ast.Assign) and ast.unparse(s.targets[0]) == name:
-            return s.value
-    return None
+def _value(tree, path, name, opaque=()):
+    """The single value a straight-line helper returns (assertions about the layout dropped)."""
+    t, _n = X.run_function(tree, path, name, opaque=set(opaque) | {"assert_complex"})
+    t = X.prune_raises(X.drop_do(t))
+    if t is None or t[0] != "ret":
+        raise Untranslatable("%s: the result depends on a branch" % name, None, path)
+    return t[1]
+
+
+def _pair_last_axis(v, path, name):
+    """(real part, imaginary part) of `torch.cat([re.unsqueeze(-1), im.unsqueeze(-1)], dim=-1)` / torch.stack((re, im), -1)."""
+    if v[0] == "call" and v[1] in (("attr", S("torch"), "cat"), ("attr", S("torch"), "stack")) and v[2] and v[2][0][0] in ("list", "tuple") and len(v[2][0][1]) == 2:
+        axis = (list(v[2][1:]) + [dict(v[3]).get("dim")])[0]
+        if axis == X.const(-1):
+            parts = []
+            for pc in v[2][0][1]:
+                if v[1][2] == "stack":
+                    parts.append(pc)
+                    continue
+                ok = pc[0] == "call" and pc[1][0] == "attr" and pc[1][2] == "unsqueeze" and (list(pc[2]) + [dict(pc[3]).get("dim")])[0] == X.const(-1)
+                if not ok:
+                    break
+                parts.append(pc[1][1])
+            if len(parts) == 2:
+                return parts
+    raise Untranslatable("%s: the result is not (real, imaginary) joined on the last axis: %s" % (name, X.show(v)[:100]), None, path)
 
 
 def generate(ctx):
+    """Element expressions of the complex helpers, read off the value trees of a symbolic execution (vlib/symex.py)."""
     path = ctx.src("direct/data/transforms.py")
     tree, _ = pg.parse_file(path)
     out = ""
-    # safe_divide
-    fn = pg.find_def(tree, "safe_divide", path)
-    body = pg.strip_doc(fn.body)
-    v = _assign(body, "data")
-    ok = isinstance(v, ast.Call) and ast.unparse(v.func) == "torch.where" and len(v.args) == 3 and ast.unparse(v.args[0]) == "other_tensor == 0" and ast.unparse(v.args[1]).startswith("torch.tensor([0.0]") and ast.unparse(v.args[2]) == "input_tensor / other_tensor" and ast.unparse(body[-1]) == "return data"
+    # safe_divide: where(other == 0, 0, input / other)
+    v = _value(tree, path, "safe_divide")
+    a_, b_ = S("input_tensor"), S("other_tensor")
+    ok = v[0] == "call" and v[1] == ("attr", S("torch"), "where") and len(v[2]) == 3 and not v[3] and v[2][0] in (("cmp", "==", b_, X.const(0)), ("cmp", "==", b_, X.const(0.0))) and v[2][2] == ("bin", "/", a_, b_)
+    if ok:
+        z = v[2][1]
+        if z[0] == "call" and z[1][0] == "attr" and z[1][2] == "to":
+            z = z[1][1]
+        ok = (z[0] == "call" and z[1] == ("attr", S("torch"), "tensor") and z[2][:1] in ((("list", (X.const(0.0),)),), (X.const(0.0),))) or z in (X.const(0), X.const(0.0)) or (z[0] == "call" and z[1] == ("attr", S("torch"), "zeros_like"))
     if not ok:
-        raise Untranslatable("safe_divide: expected torch.where(other == 0, 0, input / other)", fn.lineno, path)
+        raise Untranslatable("safe_divide: expected torch.where(other == 0, 0, input / other): %s" % X.show(v)[:120], None, path)
     out += "Definition safe_div (x y : R) : R := if is0 y then rO else rdiv x y.\n"
-    sd = lambda node, tr: "(safe_div %s %s)" % (tr.t(node.args[0]), tr.t(node.args[1]))
+    sd = {S("safe_divide"): lambda c, tr: "(safe_div %s %s)" % (tr.t(c[2][0]), tr.t(c[2][1]))}
+    leaves = {IDX(a_, 0): "a0", IDX(a_, 1): "a1", IDX(b_, 0): "b0", IDX(b_, 1): "b1"}
     # complex_multiplication
-    fn = pg.find_def(tree, "complex_multiplication", path)
-    body = pg.strip_doc(fn.body)
-    env = {"input_tensor[..., 0]": "a0", "input_tensor[..., 1]": "a1", "other_tensor[..., 0]": "b0", "other_tensor[..., 1]": "b1"}
-    tr = RingT(env, path)
-    re, im = _assign(body, "real_part"), _assign(body, "imaginary_part")
-    cat = _assign(body, "multiplication")
-    if re is None or im is None or cat is None or ast.unparse(cat) != "torch.cat([real_part.unsqueeze(dim=complex_index), imaginary_part.unsqueeze(dim=complex_index)], dim=complex_index)" or ast.unparse(body[-1]) != "return multiplication":
-        raise Untranslatable("complex_multiplication: body outside subset", fn.lineno, path)
+    re, im = _pair_last_axis(_value(tree, path, "complex_multiplication"), path, "complex_multiplication")
+    tr = RingV(leaves, path)
     out += "Definition cmul_re (a0 a1 b0 b1 : R) : R := %s.\nDefinition cmul_im (a0 a1 b0 b1 : R) : R := %s.\n" % (tr.t(re), tr.t(im))
-    # complex_division
-    fn = pg.find_def(tree, "complex_division", path)
-    body = pg.strip_doc(fn.body)
-    tr = RingT(env, path, {"safe_divide": sd})
-    den = _assign(body, "denominator")
-    tr_den = tr.t(den)
-    tr.env = dict(env, denominator="den")
-    re, im = _assign(body, "real_part"), _assign(body, "imaginary_part")
-    cat = _assign(body, "division")
-    if re is None or im is None or cat is None or ast.unparse(cat) != "torch.cat([real_part.unsqueeze(dim=complex_index), imaginary_part.unsqueeze(dim=complex_index)], dim=complex_index)" or ast.unparse(body[-1]) != "return division":
-        raise Untranslatable("complex_division: body outside subset", fn.lineno, path)
-    out += "Definition cdiv_den (b0 b1 : R) : R := %s.\n" % tr_den
-    out += "Definition cdiv_re (a0 a1 b0 b1 : R) : R := let den := cdiv_den b0 b1 in %s.\nDefinition cdiv_im (a0 a1 b0 b1 : R) : R := let den := cdiv_den b0 b1 in %s.\n" % (tr.t(re), tr.t(im))
-    # conjugate
-    fn = pg.find_def(tree, "conjugate", path)
-    body = pg.strip_doc(fn.body)
-    srcs = [ast.unparse(s) for s in body]
-    if srcs[0] != "assert_complex(data, complex_last=True)" or srcs[1] != "data = data.clone()" or srcs[-1] != "return data" or len(body) != 4 or not (isinstance(body[2], ast.Assign) and ast.unparse(body[2].targets[0]) == "data[..., 1]"):
-        raise Untranslatable("conjugate: body outside subset", fn.lineno, path)
-    tr = RingT({"data[..., 1]": "a1", "data[..., 0]": "a0"}, path)
-    out += "Definition conj_re (a0 a1 : R) : R := a0.\nDefinition conj_im (a0 a1 : R) : R := %s.\n" % tr.t(body[2].value)
-    # modulus: (data ** 2).sum(complex_axis).sqrt()
-    fn = pg.find_def(tree, "modulus", path)
-    body = pg.strip_doc(fn.body)
-    if ast.unparse(body[-1]) != "return (data ** 2).sum(complex_axis).sqrt()":
-        raise Untranslatable("modulus: body outside subset", fn.lineno, path)
+    # complex_division: both parts are safe_divide(numerator, denominator) with one denominator
+    re, im = _pair_last_axis(_value(tree, path, "complex_division", opaque={"safe_divide"}), path, "complex_division")
+    dens = {pc[2][1] for pc in (re, im) if pc[0] == "call" and pc[1] == S("safe_divide") and len(pc[2]) == 2}
+    if len(dens) != 1:
+        raise Untranslatable("complex_division: the parts are not safe_divide(.., one denominator)", None, path)
+    tr = RingV(leaves, path, sd)
+    out += "Definition cdiv_den (b0 b1 : R) : R := %s.\n" % tr.t(dens.pop())
+    out += "Definition cdiv_re (a0 a1 b0 b1 : R) : R := %s.\nDefinition cdiv_im (a0 a1 b0 b1 : R) : R := %s.\n" % (tr.t(re), tr.t(im))
+    # conjugate: a copy of the input whose imaginary part is negated
+    v = _value(tree, path, "conjugate")
+    d_ = S("data")
+    clone = ("call", ("attr", d_, "clone"), (), ())
+    if not (v[0] == "set" and v[1] == clone and v[2] == ("tuple", (X.const(Ellipsis), X.const(1)))):
+        raise Untranslatable("conjugate: the result is not a clone of the input with [..., 1] rewritten: %s" % X.show(v)[:100], None, path)
+    tr = RingV({IDX(clone, 1): "a1", IDX(d_, 1): "a1", IDX(clone, 0): "a0", IDX(d_, 0): "a0"}, path)
+    out += "Definition conj_re (a0 a1 : R) : R := a0.\nDefinition conj_im (a0 a1 : R) : R := %s.\n" % tr.t(v[3])
+    # modulus: sqrt of the sum of squares over the complex axis; root_sum_of_squares: the same summed over `dim`
+    sq = ("bin", "**", d_, X.const(2))
+    meth = lambda o, m, *args: ("call", ("attr", o, m), tuple(args), ())
+    tsqrt = lambda o: ("call", ("attr", S("torch"), "sqrt"), (o,), ())
+    v = _value(tree, path, "modulus")
+    inner = meth(sq, "sum", S("complex_axis"))
+    if v not in (meth(inner, "sqrt"), tsqrt(inner)):
+        raise Untranslatable("modulus: not sqrt((data ** 2).sum(complex_axis)): %s" % X.show(v)[:100], None, path)
     out += "Definition modsq (a0 a1 : R) : R := radd (rmul a0 a0) (rmul a1 a1).\n"
-    fn = pg.find_def(tree, "root_sum_of_squares", path)
-    body = pg.strip_doc(fn.body)
-    if [ast.unparse(s) for s in body] != ["if is_complex_data(data):\n    return torch.sqrt((data ** 2).sum(complex_dim).sum(dim))", "return torch.sqrt((data ** 2).sum(dim))"]:
-        raise Untranslatable("root_sum_of_squares: body outside subset", fn.lineno, path)
+    t, _n = X.run_function(tree, path, "root_sum_of_squares", opaque={"is_complex_data"})
+    t = X.prune_raises(X.drop_do(t))
+    cplx = meth(meth(sq, "sum", S("complex_dim")), "sum", S("dim"))
+    real = meth(sq, "sum", S("dim"))
+    test = ("call", S("is_complex_data"), (d_,), ())
+    forms = lambda i: (tsqrt(i), meth(i, "sqrt"))
+    ok = t is not None and t[0] == "if" and t[1] == test and t[2][0] == "ret" and t[3][0] == "ret" and t[2][1] in forms(cplx) and t[3][1] in forms(real)
+    if not ok:
+        raise Untranslatable("root_sum_of_squares: not sqrt of the squares summed over (the complex axis and) dim", None, path)
     out += "Definition rss_sq_term (a0 a1 : R) : R := modsq a0 a1.\n"
-    # _complex_matrix_multiplication
-    fn = pg.find_def(tree, "_complex_matrix_multiplication", path)
-    body = pg.strip_doc(fn.body)
-    v = _assign(body, "output")
-    want = "mult_func(input_tensor.real, other_tensor.real) - mult_func(input_tensor.imag, other_tensor.imag) + 1j * mult_func(input_tensor.real, other_tensor.imag) + 1j * mult_func(input_tensor.imag, other_tensor.real)"
-    if v is None or ast.unparse(v) != want:
-        raise Untranslatable("_complex_matrix_multiplication: expression outside subset", fn.lineno, path)
-    out += "Definition mm_re (M : R -> R -> R) (ar ai br bi : R) : R := rsub (M ar br) (M ai bi).\nDefinition mm_im (M : R -> R -> R) (ar ai br bi : R) : R := radd (M ar bi) (M ai br).\n"
-    for nm, f in (("complex_mm", "torch.mm"), ("complex_bmm", "torch.bmm")):
-        fn = pg.find_def(tree, nm, path)
-        if ast.unparse(pg.strip_doc(fn.body)[-1]) != "return _complex_matrix_multiplication(input_tensor, other_tensor, %s)" % f:
-            raise Untranslatable("%s: body outside subset" % nm, fn.lineno, path)
+    # _complex_matrix_multiplication: real and imaginary parts of the four products
+    v = _value(tree, path, "_complex_matrix_multiplication")
+    parts = {"re": [], "im": []}
+
+    def split(x, sign):
+        if x[0] == "bin" and x[1] in "+-":
+            split(x[2], sign)
+            split(x[3], sign if x[1] == "+" else -sign)
+        elif x[0] == "bin" and x[1] == "*" and X.const(1j) in (x[2], x[3]):
+            parts["im"].append((sign, x[3] if x[2] == X.const(1j) else x[2]))
+        else:
+            parts["re"].append((sign, x))
+
+    split(v, 1)
+    ia, ib = S("input_tensor"), S("other_tensor")
+    mm_leaf = {("attr", ia, "real"): "ar", ("attr", ia, "imag"): "ai", ("attr", ib, "real"): "br", ("attr", ib, "imag"): "bi"}
+    trm = RingV(mm_leaf, path, {S("mult_func"): lambda c, tr: "(M %s %s)" % (tr.t(c[2][0]), tr.t(c[2][1]))})
+
+    def total(items):
+        if not items:
+            return "rO"
+        acc = None
+        for sign, x in items:
+            term = trm.t(x)
+            if acc is None:
+                acc = term if sign > 0 else "(ropp %s)" % term
+            else:
+                acc = "(%s %s %s)" % ("radd" if sign > 0 else "rsub", acc, term)
+        return acc
+
+    out += "Definition mm_re (M : R -> R -> R) (ar ai br bi : R) : R := %s.\nDefinition mm_im (M : R -> R -> R) (ar ai br bi : R) : R := %s.\n" % (total(parts["re"]), total(parts["im"]))
+    for nm, f in (("complex_mm", "mm"), ("complex_bmm", "bmm")):
+        v = _value(tree, path, nm, opaque={"_complex_matrix_multiplication"})
+        if v != ("call", S("_complex_matrix_multiplication"), (ia, ib, ("attr", S("torch"), f)), ()):
+            raise Untranslatable("%s: not _complex_matrix_multiplication(input, other, torch.%s)" % (nm, f), None, path)
     # reduce / expand / dot: call structure
-    fn = pg.find_def(tree, "reduce_operator", path)
-    if ast.unparse(pg.strip_doc(fn.body)[-1]) != "return complex_multiplication(conjugate(sensitivity_map), coil_data).sum(dim)":
-        raise Untranslatable("reduce_operator: body outside subset", fn.lineno, path)
+    prim = {"complex_multiplication", "conjugate"}
+    cm = lambda x, y: ("call", S("complex_multiplication"), (x, y), ())
+    cj = lambda x: ("call", S("conjugate"), (x,), ())
+    v = _value(tree, path, "reduce_operator", opaque=prim)
+    if v != meth(cm(cj(S("sensitivity_map")), S("coil_data")), "sum", S("dim")):
+        raise Untranslatable("reduce_operator: not complex_multiplication(conjugate(sensitivity_map), coil_data).sum(dim): %s" % X.show(v)[:100], None, path)
     out += "Definition reduce_term_re (s0 s1 y0 y1 : R) : R := cmul_re (conj_re s0 s1) (conj_im s0 s1) y0 y1.\nDefinition reduce_term_im (s0 s1 y0 y1 : R) : R := cmul_im (conj_re s0 s1) (conj_im s0 s1) y0 y1.\n"
-    fn = pg.find_def(tree, "expand_operator", path)
-    if ast.unparse(pg.strip_doc(fn.body)[-1]) != "return complex_multiplication(sensitivity_map, data.unsqueeze(dim))":
-        raise Untranslatable("expand_operator: body outside subset", fn.lineno, path)
+    v = _value(tree, path, "expand_operator", opaque=prim)
+    if v not in (cm(S("sensitivity_map"), meth(d_, "unsqueeze", S("dim"))), cm(S("sensitivity_map"), ("call", ("attr", d_, "unsqueeze"), (), (("dim", S("dim")),)))):
+        raise Untranslatable("expand_operator: not complex_multiplication(sensitivity_map, data.unsqueeze(dim)): %s" % X.show(v)[:100], None, path)
     out += "Definition expand_re (s0 s1 x0 x1 : R) : R := cmul_re s0 s1 x0 x1.\nDefinition expand_im (s0 s1 x0 x1 : R) : R := cmul_im s0 s1 x0 x1.\n"
-    fn = pg.find_def(tree, "complex_dot_product", path)
-    if ast.unparse(pg.strip_doc(fn.body)[-1]) != "return complex_multiplication(conjugate(a), b).sum(dim)":
-        raise Untranslatable("complex_dot_product: body outside subset", fn.lineno, path)
+    v = _value(tree, path, "complex_dot_product", opaque=prim)
+    if v != meth(cm(cj(S("a")), S("b")), "sum", S("dim")):
+        raise Untranslatable("complex_dot_product: not complex_multiplication(conjugate(a), b).sum(dim): %s" % X.show(v)[:100], None, path)
     out += "Definition dot_term_re (a0 a1 b0 b1 : R) : R := cmul_re (conj_re a0 a1) (conj_im a0 a1) b0 b1.\nDefinition dot_term_im (a0 a1 b0 b1 : R) : R := cmul_im (conj_re a0 a1) (conj_im a0 a1) b0 b1.\n"
     names = _re.findall(r"Definition (\w+) ", out)
     for nm in names:
